@@ -21,6 +21,7 @@ func init() { register("C12", checkC12) }
 // dereferenced) so that any mutation of the receiver is visible.
 func fingerprint(c *snaps.Config) string {
 	var sb strings.Builder
+	seen := map[uintptr]bool{} // pointer cycles (a Config that points back to itself) end the walk
 	var walk func(v reflect.Value, name string)
 	walk = func(v reflect.Value, name string) {
 		switch v.Kind() {
@@ -29,11 +30,22 @@ func fingerprint(c *snaps.Config) string {
 				fmt.Fprintf(&sb, "%s=nil;", name)
 				return
 			}
+			if seen[v.Pointer()] {
+				fmt.Fprintf(&sb, "%s=<seen>;", name)
+				return
+			}
+			seen[v.Pointer()] = true
 			fmt.Fprintf(&sb, "%s=&(", name)
 			walk(v.Elem(), name)
 			sb.WriteString(");")
 		case reflect.Struct:
 			for i := 0; i < v.NumField(); i++ {
+				// synchronised internal state (a memo behind a sync.Once or a mutex) is not an
+				// option value: whether it changes behaviour is what the sequence oracles decide
+				if hasSync(v.Type().Field(i).Type, map[reflect.Type]bool{}) {
+					fmt.Fprintf(&sb, "%s=<internal>;", name+"."+v.Type().Field(i).Name)
+					continue
+				}
 				walk(v.Field(i), name+"."+v.Type().Field(i).Name)
 			}
 		case reflect.String:
@@ -48,6 +60,28 @@ func fingerprint(c *snaps.Config) string {
 	}
 	walk(reflect.ValueOf(c).Elem(), "Config")
 	return sb.String()
+}
+
+// hasSync reports whether values of type t carry sync / sync/atomic state.
+func hasSync(t reflect.Type, seen map[reflect.Type]bool) bool {
+	if seen[t] {
+		return false
+	}
+	seen[t] = true
+	switch t.Kind() {
+	case reflect.Ptr:
+		return hasSync(t.Elem(), seen)
+	case reflect.Struct:
+		if p := t.PkgPath(); p == "sync" || p == "sync/atomic" {
+			return true
+		}
+		for i := 0; i < t.NumField(); i++ {
+			if hasSync(t.Field(i).Type, seen) {
+				return true
+			}
+		}
+	}
+	return false
 }
 
 type optSet struct {
@@ -249,7 +283,7 @@ func keysOfBool(m map[string]bool) []string {
 }
 
 func checkC12(c *vkit.Ctx) {
-	c.P.Rule = "case = (option set, sequence of 1..4 entry points) - ALL 780 sequences over the five Match* entry points x 108 option sets (Filename x Ext x Update x JSON x nested Dir); each sequence is executed twice in fresh directories: through one shared Config and through a freshly built identical Config per call; oracle: reflection fingerprint of the Config (and of an unrelated Config and of WithConfig()) before/after every call, and equality of created relative paths, file bytes and outcomes between the two executions; plus sampled sequences in which the calls of one test come from two different _test.go files (default file name = the calling file's, per call); non-trivial = sequence of length >= 2 (an earlier call can influence a later one); distinct by (option set, sequence); thorough adds concurrent mixes through one Config under the race detector"
+	c.P.Rule = "case = (option set, sequence of 1..4 entry points) - ALL 780 sequences over the five Match* entry points x 108 option sets (Filename x Ext x Update x JSON x nested Dir); each sequence is executed twice in fresh directories: through one shared Config and through a freshly built identical Config per call; oracle: reflection fingerprint of the Config (and of an unrelated Config and of WithConfig()) before/after every call, and equality of created relative paths, file bytes and outcomes between the two executions; plus sampled sequences in which the calls of one test come from two different _test.go files (default file name = the calling file's, per call) and sampled sequences through a Config and a by-value copy of it with another Filename (taken before, between or after calls through the original); non-trivial = sequence of length >= 2 (an earlier call can influence a later one); distinct by (option set, sequence); thorough adds concurrent mixes through one Config under the race detector"
 	sets := allOptSets()
 	var seqs [][]string
 	var rec func(pre []string, n int)
@@ -331,6 +365,81 @@ func checkC12(c *vkit.Ctx) {
 			})
 			c.Count("two_test_file_sequences", 1)
 			c.Case(vkit.Hash("twofiles", o.Name, seq, other), true)
+		}
+	}
+	// Configs derived from another Config by value (`d := *base; snaps.Filename("x")(&d)`:
+	// Config is an exported struct, options are plain funcs): base and derived are
+	// independent, each call lands where the options of the Config it went through say
+	if os.Getenv("VERIF_RACE_BUILD") != "1" {
+		n := c.N(3000, 60000)
+		for j := 0; j < n; j++ {
+			i := total + 2000000 + j
+			if !c.Mine(i) {
+				continue
+			}
+			r := c.Rand("derived", j)
+			o := sets[r.IntN(len(sets))]
+			seq := make([]string, 2+r.IntN(3))
+			via := make([]bool, len(seq)) // true: through the derived copy
+			for k := range seq {
+				seq[k] = entryPoints[r.IntN(5)]
+				via[k] = r.IntN(2) == 0
+			}
+			copyAt := r.IntN(len(seq)) // the copy is taken after this many calls through the base
+			in := map[string]any{"options": o.Name, "sequence": seq, "through_derived_copy": via, "copy_taken_before_call": copyAt}
+			c.Guard(in, func() {
+				root := vkit.MkScratch("c12d")
+				defer os.RemoveAll(root)
+				snaps.VerifResetProcessState()
+				snaps.VerifSetMode(false, "")
+				snaps.VerifSetNoColor(true)
+				base := o.build(root)
+				var derived *snaps.Config
+				want := map[string]bool{}
+				sk := map[string]int{}
+				t := vkit.NewT("TestC/sub")
+				for k, api := range seq {
+					if k == copyAt {
+						d := *base
+						snaps.Filename("derived")(&d)
+						derived = &d
+					}
+					cfg, file := base, o.File
+					if via[k] && derived != nil {
+						cfg, file = derived, "derived"
+					}
+					callEntry(cfg, t, api, k)
+					t.Take()
+					if o.Upd != nil && !*o.Upd {
+						continue
+					}
+					ext := o.Ext
+					switch api {
+					case "ssnap", "sjson":
+						b := file
+						if b == "" {
+							b = "TestC_sub"
+						}
+						if api == "sjson" && ext == "" {
+							ext = ".json"
+						}
+						sk[b+ext]++
+						want[filepath.Join(o.Sub, fmt.Sprintf("%s_%d.snap%s", b, sk[b+ext], ext))] = true
+					default:
+						b := file
+						if b == "" {
+							b = "c12_test"
+						}
+						want[filepath.Join(o.Sub, b+".snap"+ext)] = true
+					}
+				}
+				t.Finish()
+				if got := tree(root); fmt.Sprint(treeKeys(got)) != fmt.Sprint(keysOfBool(want)) {
+					c.Violate("location-not-a-function-of-options", "", fmt.Sprintf("options {%s} sequence %v through base/derived-by-value Config %v (copy taken before call %d): created %v, the options give %v", o.Name, seq, via, copyAt, treeKeys(got), keysOfBool(want)), in)
+				}
+			})
+			c.Count("derived_by_value_config_sequences", 1)
+			c.Case(vkit.Hash("derived", o.Name, seq, via, copyAt), true)
 		}
 	}
 	if c.P.Exhaustive == nil {
